@@ -142,13 +142,13 @@ pub fn draw_config(profile: &str, seed: u64, tier_thorough: bool) -> (RunConfig,
             sw.weights = [25, 40, 28, 12, 12, 2, 2];
             sw.client_mix = [0, 0, 0, 0, 0, 0, 10];
             sw.fault_cfg = true;
-            sw.max_next = rng.range(2, 12) as u8;
+            sw.max_next = rng.range(0, 7) as u8;
         }
         "C15" => {
             sw.weights = [30, 40, 28, 14, 3, 4, 2];
             sw.client_mix = [0, 0, 0, 10, 0, 0, 0];
             sw.tx_density = sw.tx_density.max(3);
-            sw.many_txs = rng.chance(1, if tier_thorough { 10 } else { 50 });
+            sw.many_txs = rng.chance(1, if tier_thorough { 8 } else { 25 });
             if sw.many_txs {
                 // keep > 10,000 transactions unstable: the window is cut inside a block
                 sw.upgrades = true;
@@ -351,6 +351,26 @@ fn draw_reply(sw: &Swarm, w: &World, rng: &mut Rng) -> ReplySpec {
     if sw.fault_adapter && rng.chance(1, 25) {
         return ReplySpec::Empty;
     }
+    if (sw.fault_adapter || w.cfg.profile == "C14") && rng.chance(1, 8) {
+        // announce (only) the header of a block whose body will never be accepted: the header
+        // goes stale and stays until the stable height reaches it
+        let stale: Vec<usize> = w
+            .net
+            .blocks
+            .values()
+            .filter(|b| {
+                matches!(b.mutation, Mutation::BadMerkleRoot | Mutation::NoCoinbase | Mutation::DuplicateTx | Mutation::NoTransactions)
+                    && b.parent.map(|p| w.tree.contains(p)).unwrap_or(false)
+            })
+            .map(|b| b.id)
+            .collect();
+        if !stale.is_empty() {
+            return ReplySpec::Explicit {
+                blocks: vec![],
+                next: vec![HeaderOffer::Header(*rng.pick(&stale))],
+            };
+        }
+    }
     if sw.fault_pages && rng.chance(1, 10) && ids.len() > 1 {
         // explicit page counts, including 0 and 255, on a block the canister lacks if possible
         let candidates: Vec<usize> = ids.iter().copied().filter(|i| !w.tree.contains(*i) && *i != 0).collect();
@@ -448,7 +468,7 @@ fn draw_mine(sw: &Swarm, w: &World, rng: &mut Rng) -> Event {
     } else {
         best_net_tip
     };
-    let mutation = if w.cfg.profile == "C14" && rng.chance(1, 7) {
+    let mutation = if w.cfg.profile == "C14" && rng.chance(1, 5) {
         // a header-valid block whose body is rejected: its announced header goes stale
         *rng.pick(&[Mutation::BadMerkleRoot, Mutation::NoCoinbase, Mutation::DuplicateTx])
     } else if sw.fault_blocks && rng.chance(1, 9) {
